@@ -115,6 +115,9 @@ def deep_cases(draw, tier):
     return {"pda": deep_spec(names, eps, sym, other), "n": n, "limit": limit, "sym": sym, "other": other}
 
 
+from props import workbench as WB   # noqa: E402
+
+CLAUSES.append(Clause("object_history", lambda tier: WB.pda_programs(tier, "accept"), WB.run_pda, quick=300, thorough=3000, rule=WB.PDA_RULE))
 CLAUSES.append(
     Clause("deep_closure", deep_cases, run_deep, quick=4, thorough=40, watchdog=300,
            rule="family a^n b (n in 1001..1998, states renamed) whose accepting run needs an eps-closure of n+2 configurations x limits around and above "
